@@ -536,7 +536,7 @@ impl<'a> Interp<'a> {
         match &it.item {
             Item::Lit(_) => unreachable!(),
             Item::Word(_) => {
-                if let Some(v) = e.variants.iter().find(|v| v.word == Some(true)) {
+                if let Some(v) = e.variants.iter().find(|v| v.word == Some(true) && !v.skip) {
                     Expect::ok(Val::Var(v.rust.clone(), Box::new(Val::Unit)))
                 } else if e.from_word {
                     Expect::ok(self.enum_default(n))
